@@ -91,9 +91,39 @@ struct C07 : Scenario {
 				p.patches.push_back(q);
 			}
 		}
+		if (fam == "rewrite" && rng.chance(1, 10)) {
+			// the exit status stands for ALL selected members, however many of them fail: 255, 256, 257, 512 ... failures
+			p.members.clear();
+			static const int counts[] = {255, 256, 257, 512, 256, 300};
+			int n = counts[rng.below(6)], good = (int) rng.below(3);
+			TreeOpts so;
+			so.methods = {"-lh0-"};
+			so.max_payload = 3;
+			so.full_payload_sometimes = false;
+			so.perms = false;
+			for (int i = 0; i < n + good; ++i) {
+				Member m = gen_file(rng, (int) rng.below(3), "", "m" + std::to_string(i), so);
+				m.plain = member_plain(m); m.data = m.plain; m.payload.clear(); m.cut = -1;
+				if (i >= good) m.crc = (crc16_bitwise(m.plain) ^ (1 + rng.below(65535))) & 0xffff;
+				p.members.push_back(m);
+			}
+			p.sets("many_bad", "1");
+		}
 		p.seti("euid", rng.chance(1, 2) ? 0 : 1000);
 		static const char *tq[] = {"t", "tq0", "tq1", "xf", "xq0", "xq1", "tv", "ef", "xq2", "xq", "eq2", "tq2", "tq", "xfq2"};
 		p.sets("clicmd", tq[rng.below(14)]);
+		// file-name arguments: everything ("*"), or some members by name (the verdict then concerns the selected ones)
+		if (fam != "write_fault" && rng.chance(1, 3)) {
+			bool plain_names = true;
+			for (auto &m : p.members) if ((m.gpath + m.gname).find_first_of("*?[]\\") != std::string::npos || (m.gpath + m.gname).empty()) plain_names = false;
+			if (!plain_names || rng.chance(1, 2) || p.members.size() > 50) p.sets("clipat", "*");
+			else {
+				std::string s;
+				for (auto &m : p.members) if (m.kind == 'f' && rng.chance(2, 3)) s += (s.empty() ? "" : "\n") + m.gpath + m.gname;
+				if (s.empty()) s = "*";
+				p.sets("clipat", s);
+			}
+		}
 		if (fam == "rewrite" && rng.chance(1, 3)) {
 			// a well-formed header naming a method for which there is no decoder: nothing is produced, so it cannot be good
 			static const char *um[] = {"-lh2-", "-lh3-", "-lzz-", "-pm3-", "-lh8-"};
@@ -104,8 +134,10 @@ struct C07 : Scenario {
 			p.sets("clicmd", xq[rng.below(4)]);
 			static const int bufs[] = {0, 1, 64, 512, 0};
 			p.seti("outbuf", bufs[rng.below(5)]);
-			static const int errs[] = {28, 5, 27, 122};   // ENOSPC EIO EFBIG EDQUOT
-			p.seti("write_errno", errs[rng.below(4)]);
+			static const int errs[] = {28, 5, 27, 122, 4};   // ENOSPC EIO EFBIG EDQUOT EINTR
+			p.seti("write_errno", errs[rng.below(5)]);
+			// a lasting refusal (disk full) or a transient one (a single write call is cut short, the next succeeds)
+			if (rng.chance(1, 2)) p.seti("write_once", 1);
 		}
 		return p;
 	}
@@ -154,6 +186,13 @@ struct C07 : Scenario {
 		Plan q = p;
 		std::string cmd = p.gets("clicmd", "t");
 		q.argv = {"lha", cmd, "/w/a.lzh"};
+		std::vector<std::string> pats;
+		if (!p.gets("clipat").empty()) { pats = split_ch(p.gets("clipat"), '\n'); for (auto &s : pats) q.argv.push_back(s); }
+		auto is_selected = [&](const MemberJudgement &j) {
+			if (pats.empty()) return true;
+			for (auto &s : pats) if (s == "*" || s == j.h.full()) return true;
+			return false;
+		};
 		q.seti("trunc", trunc);
 		CliEnv env(q);
 		g_sim.budget = g_sim.steps + 100000 + 64 * arch.size();
@@ -169,6 +208,7 @@ struct C07 : Scenario {
 		for (size_t ji = 0; ji < js.size(); ++ji) {
 			const MemberJudgement &j = js[ji];
 			if (j.h.method == "-lhd-" || j.h.os == 'm') continue;
+			if (!is_selected(j)) continue;
 			if (!j.expect_good) any_bad = true;
 			// a member whose method has no decoder never starts decoding: the tool prints no outcome line for it
 			if (!supported_method(j.h.method)) continue;
@@ -197,7 +237,7 @@ struct C07 : Scenario {
 		if (any_bad && r.status == 0 && !r.exited) { res.fail("C07.exit_status", std::string("cli:exit:") + (extract ? "x" : "t"), ctx + ": exit status 0 although a selected member is bad\n" + printable(r.out)); return false; }
 		if (!extract && !any_bad && (r.status != 0 || r.exited)) {
 			bool all_supported = true;
-			for (auto &j : js) if (j.h.method != "-lhd-" && !supported_method(j.h.method)) all_supported = false;
+			for (auto &j : js) if (j.h.method != "-lhd-" && is_selected(j) && !supported_method(j.h.method)) all_supported = false;
 			if (all_supported) { res.fail("C07.exit_status", "cli:exit:false_negative", ctx + strf(": exit status %d although every member matches", r.status)); return false; }
 		}
 		if (extract) {
@@ -228,7 +268,7 @@ struct C07 : Scenario {
 		sim_watchdog_kick();
 		CliResult r = env.run(q, arch);
 		if (r.budget) { res.fail("C07.budget", "budget:cli", "the tool did not finish within the step budget"); return false; }
-		std::string ctx = strf("'lha %s' with the output medium failing (errno %d) from byte %lld on, output buffering %d", cmd.c_str(), (int) p.geti("write_errno", 28), (long long) n, (int) p.geti("outbuf", 0));
+		std::string ctx = strf("'lha %s' with the output medium failing (errno %d) %s byte %lld%s, output buffering %d", cmd.c_str(), (int) p.geti("write_errno", 28), p.geti("write_once", 0) ? "once, at" : "from", (long long) n, p.geti("write_once", 0) ? "" : " on", (int) p.geti("outbuf", 0));
 		// which members were reported Melted?
 		std::vector<int> got;
 		size_t pos = 0;
@@ -421,6 +461,8 @@ struct C07 : Scenario {
 		if (p.scenario == "damage") count("fault.D-BYTE", p.patches.size());
 		g_sim.counters["evals"] = evals;
 		count("kind.family." + p.scenario);
+		if (p.gets("many_bad") == "1") count("kind.hundreds_of_failing_members");
+		if (!p.gets("clipat").empty()) count(p.gets("clipat") == "*" ? "kind.pattern.star" : "kind.pattern.names");
 		count("kind.cli." + p.gets("clicmd"));
 		count("probe.members_judged_good", n_good);
 		count("probe.members_judged_bad", n_bad);
